@@ -97,11 +97,12 @@ Definition judge_c02 (s : status) : bool :=
 Definition judge_c34 (v : value) (t : ety) : bool := has_ty v t.
 
 (** known classes of C34 (findings, known/C34.json), decided on the defining expression of a top-level binding:
-    1  `not e` at the root: erg reports the operand's type for the negation ({True} for `not True`);
+    1  a `not e` inside: erg reports the operand's type for the negation ({True} for `not True`);
     2  a `.sum()` inside: erg reports the element type ({1, 2, 3} for [1, 2, 3].sum());
-    3  a list `+` whose left operand is push-derived (a push call or a variable bound to one): erg reports the length
-       2 * N and the element type of the left operand only (the DESIGN.md example l.push(4) + [5] : List(.., 8));
-    a binding defined from a binding of a class inherits the class. *)
+    3  a list `+` with an operand built by push or by another `+` (not a plain list literal): erg reports the length
+       2 * N and the element type of one operand only (the DESIGN.md example l.push(4) + [5] : List(.., 8));
+    a binding defined from a binding (or by a call of a function) of a class inherits the class.  The classes are
+    syntactic over-approximations: they are consulted only for a binding whose membership test failed. *)
 Section TmExists.
   Variable P : tm -> bool.
   Fixpoint tm_exists (e : tm) {struct e} : bool :=
@@ -118,29 +119,48 @@ Section TmExists.
     end.
 End TmExists.
 
-Definition push_derived (Pv : list Z) (e : tm) : bool :=
+(* list-valued by its shape; derived = built by push or + (not a plain list literal) *)
+Fixpoint listish (Lv : list Z) (e : tm) : bool :=
+  match e with
+  | XList _ => true
+  | XMeth m _ _ => m =? M_push
+  | XVar x => mem_z x Lv
+  | XBin OAdd a b => listish Lv a || listish Lv b
+  | _ => false
+  end.
+
+Definition derived (Lv Dv : list Z) (e : tm) : bool :=
   match e with
   | XMeth m _ _ => m =? M_push
-  | XVar x => mem_z x Pv
+  | XVar x => mem_z x Dv
+  | XBin OAdd a b => listish Lv a || listish Lv b
   | _ => false
   end.
 
 Fixpoint class_of_var (x : Z) (K : list (Z * Z)) : Z :=
   match K with [] => 0 | (y, c) :: r => if x =? y then c else class_of_var x r end.
 
-Definition k34_tm (Pv : list Z) (K : list (Z * Z)) (e : tm) : Z :=
-  if tm_exists (fun x => match x with XBin OAdd a _ => push_derived Pv a | _ => false end) e then 3
+Definition k34_tm (Lv Dv : list Z) (K : list (Z * Z)) (e : tm) : Z :=
+  if tm_exists (fun x => match x with
+                         | XBin OAdd a b => (listish Lv a || listish Lv b) && (derived Lv Dv a || derived Lv Dv b)
+                         | _ => false end) e then 3
   else if tm_exists (fun x => match x with XMeth m _ _ => m =? M_sum | _ => false end) e then 2
-  else if (match e with XUn UNot _ => true | _ => false end) then 1
-  else fold_right Z.max 0 (map (fun kc => if tm_exists (fun x => match x with XVar y => y =? fst kc | _ => false end) e
+  else if tm_exists (fun x => match x with XUn UNot _ => true | _ => false end) e then 1
+  else fold_right Z.max 0 (map (fun kc => if tm_exists (fun x => match x with
+                                                                 | XVar y => y =? fst kc
+                                                                 | XCall f _ => f =? fst kc
+                                                                 | _ => false end) e
                                           then snd kc else 0) K).
 
-Fixpoint k34_walk (Pv : list Z) (K : list (Z * Z)) (p : prog) : list (Z * Z) :=
+Fixpoint k34_walk (Lv Dv : list Z) (K : list (Z * Z)) (p : prog) : list (Z * Z) :=
   match p with
   | [] => K
   | TDef x _ e :: r =>
-    k34_walk (if push_derived Pv e then x :: Pv else Pv) ((x, k34_tm Pv K e) :: K) r
-  | _ :: r => k34_walk Pv K r
+    k34_walk (if listish Lv e then x :: Lv else Lv) (if derived Lv Dv e then x :: Dv else Dv)
+             ((x, k34_tm Lv Dv K e) :: K) r
+  | TFun f _ _ _ locals res :: r =>
+    k34_walk Lv Dv ((f, fold_right Z.max (k34_tm Lv Dv K res) (map (fun l => k34_tm Lv Dv K (snd l)) locals)) :: K) r
+  | _ :: r => k34_walk Lv Dv K r
   end.
 
-Definition known_c34 (p : prog) (x : Z) : Z := class_of_var x (k34_walk [] [] p).
+Definition known_c34 (p : prog) (x : Z) : Z := class_of_var x (k34_walk [] [] [] p).
